@@ -122,11 +122,18 @@ def valid_cores(cloud, wt):
     return list(ru.possible_cores_from_worker_type(cloud, wt))
 
 
+def pow2_cores(cloud, wt):
+    return [c for c in valid_cores(cloud, wt) if c & (c - 1) == 0]
+
+
 def config(cloud, variant):
-    """Pool sets.  0: the shipped layout - one pool per worker type x preemptibility, 16 cores;
-    1: two pools per worker type with the smallest and the largest core count of the table (first-fit order small,
-       large), a labelled pool, and a pool of the other cloud;
-    2: largest first, external data disk, only non-preemptible labelled."""
+    """Pool sets (worker types and core counts from the repository's tables).
+    0: the shipped layout - one pool per worker type x preemptibility, 16 cores;
+    1: per worker type a small and a large pool (first-fit order small, large; power-of-two core counts), a
+       non-preemptible one, a labelled pool and a pool of the other cloud;
+    2: large first, external data disk, a labelled non-preemptible pool;
+    3: like 1 but the large pools use the largest core count of the table, which is NOT a power of two
+       (gcp 96; azure 64 is, so E/20 and F/72 are added) - exercises the known-finding class."""
     other = 'azure' if cloud == 'gcp' else 'gcp'
     pools = []
     if variant == 0:
@@ -135,19 +142,30 @@ def config(cloud, variant):
                 pools.append(make_pool(f'{wt}{"" if pre else "-np"}', cloud, wt, 16, pre))
     elif variant == 1:
         for wt in types(cloud):
-            vc = valid_cores(cloud, wt)
+            vc = pow2_cores(cloud, wt)
             pools.append(make_pool(f'{wt}-small', cloud, wt, vc[0], True))
             pools.append(make_pool(f'{wt}-large', cloud, wt, vc[-1], True))
             pools.append(make_pool(f'{wt}-np', cloud, wt, vc[len(vc) // 2], False))
         pools.append(make_pool('labelled', cloud, types(cloud)[0], 8, True, label='x'))
         pools.append(make_pool('foreign', other, types(other)[0], 16, True))
-    else:
+    elif variant == 2:
         for wt in types(cloud):
-            vc = valid_cores(cloud, wt)
+            vc = pow2_cores(cloud, wt)
             pools.append(make_pool(f'{wt}-large', cloud, wt, vc[-1], True, local_ssd=False))
             pools.append(make_pool(f'{wt}-small', cloud, wt, vc[0], True, local_ssd=False))
         pools.append(make_pool('labelled-np', cloud, types(cloud)[1], 4, False, label='x'))
+    else:
+        for wt in types(cloud):
+            vc = valid_cores(cloud, wt)
+            np2 = [c for c in vc if c & (c - 1)]
+            pools.append(make_pool(f'{wt}-small', cloud, wt, vc[0], True))
+            for c in np2:
+                pools.append(make_pool(f'{wt}-{c}', cloud, wt, c, True))
     return icc.InstanceCollectionConfigs({p.name: p for p in pools}, make_jpim(cloud), Rates(), AnyVersion())
+
+
+def describe(cfg):
+    return [(p.name, p.cloud, p.worker_type, p.worker_cores, p.preemptible, p.label) for p in cfg.name_pool_config.values()]
 
 
 # ------------------------------------------------------------------------------------------------
@@ -197,12 +215,27 @@ def pool_accepts(cloud, wt, worker_cores, c, m, st, slacks=(0, 0, 0)):
 LABELS = ('', 'x', 'nolabel')
 
 
-def select_ok(cloud, variant, c, m, st, preemptible, label_i, wt_i, slacks=(0, 0, 0), cfg=None):
+def known_nonpow2(cfg, cloud, c, m, st, preemptible, label, wt):
+    """Predicate of the known-finding class 'nonpow2-worker-cores-crash-price-selection': the request names no worker
+    type (price path) and some pool matching cloud/preemptible/label whose worker_cores is not a power of two can
+    satisfy (= accepts, by the pool obligations) the request."""
+    hit = False
+    if wt is None:
+        for p in cfg.name_pool_config.values():
+            if (p.cloud == cloud and p.preemptible == preemptible and p.label == label
+                    and p.worker_cores & (p.worker_cores - 1) != 0):
+                hit = hit | satisfiable(cloud, p.worker_type, p.worker_cores, c, m, st)
+    return hit
+
+
+def select_ok(cloud, variant, c, m, st, preemptible, label_i, wt_i, slacks=(0, 0, 0), exclude_known=False):
     """Family B (pools): select_inst_coll over a multi-pool configuration; wt_i = 0 means "no worker type"."""
     set_slack(cloud, slacks)
-    cfg = cfg or config(cloud, variant)
+    cfg = config(cloud, variant)
     label = LABELS[label_i]
     wt = None if wt_i == 0 else types(cloud)[wt_i - 1]
+    if exclude_known and known_nonpow2(cfg, cloud, c, m, st, preemptible, label, wt):
+        return True
     result, exc = cfg.select_inst_coll(cloud, None, label, preemptible, wt, c, m, st)
     if exc is not None:
         return False
